@@ -11,11 +11,30 @@ Open Scope Z_scope.
 
 (* any finite sequence of Set/Del/Get/GetIDs: every answer, and the final contents, are those of
    the ordered map; which calls return nil and which an error is decided by the profile rules *)
-Theorem C05_refines : forall ops h, shape_ok h ->
+(* [run_fits]: no call of the sequence would push the extension elements beyond 65535 words, the most the
+   16-bit length field can count - SetExtension refuses such a call (D36), and a refused call leaves the
+   header unchanged (C05_error_unchanged).  C05_fits: on a header without a repeated id - every header
+   reachable from the four starting states, and every wire that names no id twice - the premise holds for
+   every sequence of calls (14 x 17 or 255 x 257 bytes are far below the limit). *)
+Theorem C05_refines : forall ops h, shape_ok h -> run_fits h ops ->
   let '(h', outs) := run model_step h ops in
   run spec_step (abs_state h) ops = (abs_state h', outs) /\ shape_ok h'.
 Proof. exact accessors_refine. Qed.
 Print Assumptions C05_refines.
+
+Theorem C05_fits : forall ops h, Forall op_ok ops -> shape_ok h -> exts_inv h -> run_fits h ops.
+Proof. exact inv_run_fits. Qed.
+Print Assumptions C05_fits.
+
+(* D36, repaired in /repo: a header off the wire whose two-byte block is full to the last of its 65535 words
+   (1020 elements of 255 bytes under one id) - one more element used to be accepted, and Marshal then wrote
+   the low 16 bits of the word count; now the call is refused, while replacing a value within the limit
+   still works *)
+Example C05_block_limit_repaired :
+  let h := mkHeader 2 false true false 96 1 2 3 [] 4096 (repeat (mkExt 1 (repeat 7 255)) 1020) in
+  snd (set_extension h 2 [9; 8; 7]) = Some ESize /\ fst (set_extension h 2 [9; 8; 7]) = h /\
+  snd (set_extension h 1 (repeat 8 255)) = None /\ snd (set_extension h 1 (repeat 8 256)) = Some ESize.
+Proof. cbv zeta. repeat split; vm_compute; reflexivity. Qed.
 
 (* a call that returns an error leaves the header unchanged *)
 Theorem C05_error_unchanged : forall h o h' e, model_step h o = (h', RDone (Some e)) -> h' = h.
